@@ -39,13 +39,14 @@ type bench struct {
 	nS      int
 	spawned int
 	log     []string
+	steps   [][]string // (thread, where it was released from, where it settled)
 	chunkN  map[string]int
 }
 
 var senderSeg = map[string][]string{
-	">sc.req.gotActive":                    {"gate", "active"},
-	"sc.req.gotActive>sc.req.pendingAdded": {"count"},
-	"sc.req.pendingAdded>sc.send.locked":   {"locki"},
+	">sc.req.pendingAdded":                 {"gate"},
+	"sc.req.pendingAdded>sc.req.gotActive": {"active"},
+	"sc.req.gotActive>sc.send.locked":      {"locki"},
 	"sc.send.locked>sc.send.chunk":         {},
 	"sc.send.chunk>sc.send.chunk":          {"chunk"},
 	"sc.send.chunk>sc.req.sent":            {"chunk", "unlocki", "done"},
@@ -66,7 +67,7 @@ var renewSeg = map[string][]string{
 }
 
 var respSeg = map[string][]string{
-	">sc.resp.gotActive":               {"gate", "active", "count"},
+	">sc.resp.gotActive":               {"gate", "active", "id"},
 	"sc.resp.gotActive>sc.resp.locked": {"locki"},
 	"sc.resp.locked>sc.resp.chunk":     {},
 	"sc.resp.chunk>sc.resp.chunk":      {"chunk"},
@@ -217,9 +218,14 @@ func (b *bench) stepThread(t *thr, maxBody int) string {
 			return "notparked"
 		}
 		b.chunkN[t.name] = 1
+		if t.kind == "S" && b.ctl.ParkedAt(t.name) == "sc.req.gotActive" {
+			// the next thing it does is take its request id (nextRequestID), before it may block on the instance lock
+			b.events = append(b.events, Ev{"id", t.mtid})
+		}
 		b.ctl.Release(t.name)
 	}
 	st := b.ctl.WaitSettled(t.name, 5*time.Second)
+	b.steps = append(b.steps, []string{t.name, t.pos, st})
 	b.observe(t)
 	// spontaneous arrivals of threads that were blocked
 	time.Sleep(2 * time.Millisecond)
@@ -366,12 +372,21 @@ func c11run(r *rng.R, sp c11spec) error {
 					break
 				}
 				if t.started && ctl.ParkedAt(t.name) == "" {
-					// blocked: give it a moment (e.g. the renewer waiting for the OPN response)
-					if ctl.WaitParked(t.name, "", 1500*time.Millisecond) == "" {
-						b.observe(nil)
+					// not at a point: either still on its way or blocked inside the library
+					st := ctl.WaitSettled(t.name, 1500*time.Millisecond)
+					b.observe(nil)
+					if st == "blocked" {
+						// e.g. the renewer waiting for the OPN response: that resolves by itself
+						if t.kind == "R" && t.pos == "sc.req.sent" && ctl.WaitParked(t.name, "", 1500*time.Millisecond) != "" {
+							b.observe(nil)
+						} else {
+							b.steps = append(b.steps, []string{t.name, t.pos, "blocked"})
+							break
+						}
+					}
+					if st == "done" {
 						break
 					}
-					b.observe(nil)
 				}
 				schedule = append(schedule, t.name)
 				st := b.stepThread(t, maxBody)
@@ -455,18 +470,21 @@ func c11run(r *rng.R, sp c11spec) error {
 		}
 	}
 	emit(map[string]interface{}{"kind": "case", "prop": "C11", "scenario": sp.name, "results": results, "sign": sp.sign, "seq0": seq0, "req0": req0,
-		"events": b.events, "wire": wireOf(fs), "schedule": schedule, "deadlock": deadlock, "log": b.log,
+		"events": b.events, "wire": wireOf(fs), "schedule": schedule, "steps": b.steps, "deadlock": deadlock, "log": b.log,
 		"chunks": sp.chunks, "renews": sp.renews, "full": true, "server_errors": p.Srv.Errs()})
 	return nil
 }
 
 func c11(seed uint64, n int, schedArg string) {
 	specs := []c11spec{
-		{name: "witness-renewal-window", chunks: []int{1}, renews: 1, order: []string{"S0", "R0*", "S0*"}},
+		// the schedules that produced duplicate numbers / interleaved messages before fix dd66ad2: the sender is
+		// counted as soon as it is past the gate, so the renewal now blocks in pendingReq.Wait() until it is done
+		{name: "witness-renewal-window", chunks: []int{1}, renews: 1, order: []string{"S0", "R0*", "S0*", "R0*"}},
 		{name: "witness-interleaved-messages", chunks: []int{2, 2}, renews: 1,
-			order: []string{"S0", "R0*", "S1", "S0", "S1", "S0", "S1", "S0", "S1", "S0", "S1", "S0", "S1", "S0*", "S1*"}},
+			order: []string{"S0", "R0*", "S1", "S0", "S1", "S0", "S1", "S0", "S0*", "R0*", "S1*"}},
+		// a renewal that times out after its OPN was written (fix 5bac950: the counter is handed back)
 		{name: "witness-failed-renewal", chunks: []int{1}, renews: 1, holdOPN: true, order: []string{"R0*", "S0*"}},
-		{name: "gate-respected", chunks: []int{3, 2}, renews: 1,
+		{name: "renewal-under-load", chunks: []int{3, 2}, renews: 1,
 			order: []string{"S0", "S0", "R0", "S0*", "R0*", "S1*"}},
 	}
 	if schedArg != "" {
@@ -566,7 +584,7 @@ func c11respOne(r *rng.R, name string) error {
 	ctl.FreeAll()
 	fs := b.waitFrames("s2c", before)
 	emit(map[string]interface{}{"kind": "case", "prop": "C11", "scenario": name, "seq0": seq0, "req0": 0,
-		"events": b.events, "wire": wireOf(fs), "schedule": schedule, "deadlock": deadlock, "log": b.log,
+		"events": b.events, "wire": wireOf(fs), "schedule": schedule, "steps": b.steps, "deadlock": deadlock, "log": b.log,
 		"chunks": chunks, "renews": 0, "full": false})
 	return nil
 }
